@@ -66,6 +66,10 @@ func checkC05(c *Ctx) {
 	c.As(map[string]string{"R6.2": "R5.12"}, func() { c6StdBridge(c, "R6.2", c5LevelValues(c)) })
 	c.Rule("R5.13", "wrapper cores (level filter, hooks, sampler) derive a wrapper of their own kind around the derived inner core: a child never loses the filter", 5)
 	c.As(map[string]string{"R7.4": "R5.13"}, func() { c7Wrappers(c) })
+	c.Rule("R5.17", "the slog handler filters and reports a record at the zap level of the greatest named slog level not above the record's (evaluated for every slog level): a level between Debug and Info is a debug message for Enabled and for Handle alike", 2)
+	c.Rule("R5.18", "RegisterHooks keeps a copy of the hooks: the hooks of a core already built do not change when the caller rewrites its slice", 1)
+	c5HooksCopied(c, "R5.18")
+	c.As(map[string]string{"R18.2": "R5.17"}, func() { c18LevelMap(c) })
 	c.Rule("R5.16", "a printer installed by an option of the gRPC adapter pre-checks (Println) at the level its functions log at", 2)
 	c5GrpcPrinterOptions(c, "R5.16")
 	c.Rule("R5.15", "hooked.Check reads how many cores had accepted before it asks the wrapped core (read afterwards, the count includes the wrapped core and the hooks never fire behind an accepting tee branch)", 1)
